@@ -216,6 +216,11 @@ def _slug(s, n=90):
     return s[:n]
 
 
+def _slug_expr(s, n=60):
+    """assertion expressions keep their literals (assert(0) must stay '0')"""
+    return re.sub(r"[^A-Za-z0-9_.:<>=!+&|-]+", "-", s).strip("-")[:n]
+
+
 def _safe(s):
     return re.sub(r"[\[\]\*\?\s]", "_", s)
 
@@ -363,12 +368,14 @@ _STD = ("std::", "__gnu_cxx::", "__cxa", "__cxxabiv1", "__interceptor", "__sanit
         "operator delete", "_start", "__libc")
 
 
-GENERIC_FILES = ("prevector.h", "span.h", "serialize.h", "streams.h", "tinyformat.h", "strencodings.h", "strencodings.cpp", "vector.h")
+GENERIC_FILES = ("prevector.h", "span.h", "serialize.h", "streams.h", "tinyformat.h", "strencodings.h", "strencodings.cpp", "vector.h",
+                 "uint256.h", "transaction.h")
 GENERIC_DIRS = ("/support/", "/compat/")
+GENERIC_FUNCS = ("prevector<", "CScript::CScript", "CScriptBase", "Span<")
 
 
-def _generic(path):
-    return os.path.basename(path) in GENERIC_FILES or any(d in path for d in GENERIC_DIRS)
+def _generic(path, func=""):
+    return os.path.basename(path) in GENERIC_FILES or any(d in path for d in GENERIC_DIRS) or func.startswith(GENERIC_FUNCS)
 
 
 def _frames_in_tree(frames, repo, bin_path):
@@ -378,17 +385,18 @@ def _frames_in_tree(frames, repo, bin_path):
         m = _FR_SYM.match(ln)
         if m:
             if _in_tree(m.group(3), repo):
-                out.append((_strip_func(m.group(2)), os.path.basename(m.group(3)), _generic(m.group(3))))
+                fn = _strip_func(m.group(2))
+                out.append((fn, os.path.basename(m.group(3)), _generic(m.group(3), fn)))
             continue
         m = _FR_MOD.match(ln)
         if m and m.group(2) and os.path.basename(m.group(3)) == os.path.basename(bin_path):
             r = _addr2line_file(bin_path, m.group(4), repo)
             if r:
-                out.append((r[0], r[1], _generic("/" + r[1])))
+                out.append((r[0], r[1], _generic("/" + r[1], r[0])))
             else:
                 core = _strip_func(m.group(2))
                 if not core.startswith(_STD):
-                    out.append((core, "?", False))
+                    out.append((core, "unknown", False))
     return out
 
 
@@ -398,7 +406,7 @@ def top_frame(frames, repo, bin_path, recursion=False):
     arbitrary member of the recursion cycle, so the alphabetically first of the most frequent in-tree functions is used."""
     fr = _frames_in_tree(frames, repo, bin_path)
     if not fr:
-        return "?@?"
+        return "noframe"
     if recursion:
         cnt = {}
         for (f, fl, g) in fr:
@@ -448,7 +456,7 @@ def make_key(tool, rc, sig, err_text, hang, variant, repo, bin_path, devkind="")
                     break
             return _safe("%s:valgrind:%s:%s" % (tool, kind, fn))
         if rs[0] == "signal":
-            return _safe("%s:signal:%s:?@?" % (tool, rs[1]))
+            return _safe("%s:signal:%s:noframe" % (tool, rs[1]))
         return _safe("%s:exit:%s" % (tool, rs[1]))
     m = _UB.search(t)
     ma = _AS.search(t)
@@ -456,8 +464,8 @@ def make_key(tool, rc, sig, err_text, hang, variant, repo, bin_path, devkind="")
         idx = t[:m.start()].count("\n")
         fr = first_stack_block(lines, idx)
         frame = top_frame(fr, repo, bin_path)
-        if frame == "?@?" and _in_tree(m.group(1), repo):
-            frame = "?@%s" % os.path.basename(m.group(1))
+        if frame == "noframe" and _in_tree(m.group(1), repo):
+            frame = "unknown@%s" % os.path.basename(m.group(1))
         return _safe("%s:ubsan:%s:%s" % (tool, _slug(m.group(4)), frame))
     if ma:
         kind = ma.group(1)
@@ -471,19 +479,19 @@ def make_key(tool, rc, sig, err_text, hang, variant, repo, bin_path, devkind="")
             if _TERM2.search(t):
                 return _safe("%s:uncaught:rethrow:%s" % (tool, frame))
             if mx:
-                return _safe("%s:assert:%s:%s" % (tool, _slug(mx.group(1), 60), frame))
+                return _safe("%s:assert:%s:%s" % (tool, _slug_expr(mx.group(1)), frame))
             return _safe("%s:signal:SIGABRT:%s" % (tool, frame))
         if kind in ("SEGV", "FPE", "ILL", "BUS"):
             return _safe("%s:signal:SIG%s:%s" % (tool, kind, frame))
         return _safe("%s:asan:%s:%s" % (tool, kind, frame))
     mt = _TERM.search(t)
     if mt:
-        return _safe("%s:uncaught:%s:?@?" % (tool, mt.group(1)))
+        return _safe("%s:uncaught:%s:noframe" % (tool, mt.group(1)))
     mx = _ASSERT.search(t)
     if mx:
-        return _safe("%s:assert:%s:?@?" % (tool, _slug(mx.group(1), 60)))
+        return _safe("%s:assert:%s:noframe" % (tool, _slug_expr(mx.group(1))))
     if sig:
-        return _safe("%s:signal:%s:?@?" % (tool, sig))
+        return _safe("%s:signal:%s:noframe" % (tool, sig))
     if rc not in OK_EXIT:
         return _safe("%s:exit:%s" % (tool, rc))
     return None
@@ -500,16 +508,30 @@ def _diag(rc, err_text):
 
 
 MASKABLE_ASAN = ("alloc-dealloc-mismatch",)
+ENUM_LOAD = "not-a-valid-value-for-type"
+CONTINUABLE_UBSAN = (ENUM_LOAD, "null-pointer-passed-as-argument", "reference-binding-to-null-pointer")
 
 
 def _maskable(rs):
+    """reports after which the sanitized binary can be re-run with the check neutralised"""
     if rs is None:
         return False
     if rs[0] == "asan" and rs[1] in MASKABLE_ASAN:
         return True
-    if rs[0] == "ubsan" and "not-a-valid-value-for-type" in rs[2]:
+    if rs[0] == "ubsan" and ENUM_LOAD in rs[2]:
         return True
     return False
+
+
+def _next_variant(v, rs):
+    """how the observation of an input continues after its run stopped on report rs (None: it does not)"""
+    if rs is None:
+        return None
+    if v == "asan" and _maskable(rs):
+        return "relaxed"
+    if v in ("asan", "relaxed") and rs[0] == "ubsan" and any(k in rs[2] for k in CONTINUABLE_UBSAN):
+        return "plain"
+    return None
 
 
 def work(item):
@@ -533,11 +555,8 @@ def work(item):
         else:
             dg = "V" + hashlib.md5(repr(rs).encode()).hexdigest()[:11]
         out.append((d, v, c["tool"], c["base"], c["kind"], ih, size, rc, rs, dg, _diag(rc, set_), ms))
-        if v == "asan" and _maskable(rs):
-            v = "relaxed"
-        elif v == "relaxed" and rs is not None and rs[0] == "ubsan" and "not-a-valid-value-for-type" in rs[2]:
-            v = "plain"
-        else:
+        v = _next_variant(v, rs)
+        if v is None:
             break
     return out
 
